@@ -9,7 +9,7 @@ R-WHITELIST    detect / detect_any iterate all colliders, filter candidates only
 """
 import ast
 
-from ..core.astutil import u, call_name, calls, iter_stmts, const, ncmp, parent_map
+from ..core.astutil import u, call_name, calls, iter_stmts, const, ncmp, parent_map, guard_chain
 from ..core.index import AnalysisError
 
 BP = "distance3d.broad_phase"
@@ -131,13 +131,22 @@ def r_payload(idx, rep, rule="R-PAYLOAD"):
             good = e0 == "self.aabbtree_.external_data_list[%s[0]]" % pv and e1 == "%s.aabbtree_.external_data_list[%s[1]]" % (oparam, pv)
         rep.check(good, rule, g.key + "|pair[0] -> self, pair[1] -> other", g.where,
                   "payload lookup must be (self...external_data_list[pair[0]], %s...external_data_list[pair[1]])" % oparam)
-        skips = [st for st in iter_stmts(fors[0].body) if isinstance(st, ast.If) and any(isinstance(s, ast.Continue) for s in st.body)]
+        # under which conditions is a pair recorded?  (guard clauses and enclosing ifs are one and the same to the guard chain)
+        pm = parent_map(g.node)
+        rec = [st for st in iter_stmts(fors[0].body) if isinstance(st, ast.Expr) and isinstance(st.value, ast.Call) and (call_name(st.value) or "").endswith(".append")]
+        if len(rec) != 1:
+            rep.bad(rule, g.key + "|pairs recorded once", g.where, "expected exactly one `.append(...)` of a payload pair in the pair loop, found %d" % len(rec))
+            continue
+        atoms = guard_chain(pm, rec[0], fors[0])
         if name.endswith("_self"):
-            ok = len(skips) == 1 and ncmp(skips[0].test) is not None and ncmp(skips[0].test)[0] == "==" and \
-                {u(ncmp(skips[0].test)[1]), u(ncmp(skips[0].test)[2])} == {"%s[0]" % pv, "%s[1]" % pv}
-            rep.check(ok, rule, g.key + "|self pairs skipped iff equal indices", g.where, "pairs may be skipped only when pair[0] == pair[1]")
+            ok = len(atoms) == 1 and isinstance(atoms[0][0], ast.Compare) and len(atoms[0][0].ops) == 1 \
+                and {u(atoms[0][0].left), u(atoms[0][0].comparators[0])} == {"%s[0]" % pv, "%s[1]" % pv} \
+                and ((isinstance(atoms[0][0].ops[0], ast.Eq) and atoms[0][1] is False) or (isinstance(atoms[0][0].ops[0], ast.NotEq) and atoms[0][1] is True))
+            rep.check(ok, rule, g.key + "|self pairs skipped iff equal indices", g.where,
+                      "a pair is recorded under %s; pairs may be skipped only when pair[0] == pair[1]" % [("" if pol else "not ") + u(t) for t, pol in atoms])
         else:
-            rep.check(not skips, rule, g.key + "|no pair skipped", g.where, "no pair of the other tree may be skipped")
+            rep.check(not atoms, rule, g.key + "|no pair skipped", g.where,
+                      "a pair of the other tree is recorded only under %s; no pair may be skipped (indices of two different trees are unrelated)" % [("" if pol else "not ") + u(t) for t, pol in atoms])
 
 
 def r_whitelist(idx, rep, rule="R-WHITELIST"):
@@ -177,12 +186,17 @@ def r_whitelist(idx, rep, rule="R-WHITELIST"):
             marks = {u(st.targets[0]) for st in hit if isinstance(st, ast.Assign) and const(st.value) is True}
             rep.check(marks == {"%s[%s]" % (cname, fr), "%s[%s]" % (cname, f2)}, rule, f.key + "|marks both frames", f.where,
                       "a hit must mark contacts[frame] and contacts[frame2]; marks %s" % sorted(marks))
-            init = [st for st in outer[0].body if isinstance(st, ast.Assign) and u(st.targets[0]) == "%s[%s]" % (cname, fr) and const(st.value) is False]
+            init = [st for st in iter_stmts(outer[0].body) if isinstance(st, ast.Assign) and u(st.targets[0]) == "%s[%s]" % (cname, fr) and const(st.value) is False
+                    and st not in list(iter_stmts(inner[0].body))]
             rep.check(len(init) == 1 and init[0].lineno < inner[0].lineno, rule, f.key + "|default False before the candidates", f.where,
                       "contacts[frame] must default to False before the candidate loop")
-            skip = [st for st in outer[0].body if isinstance(st, ast.If) and any(isinstance(s, ast.Continue) for s in st.body)]
-            ok = all(u(st.test).replace(" ", "") == "%sin%s" % (fr, cname) for st in skip)
-            rep.check(ok, rule, f.key + "|skips only frames already decided", f.where, "a frame may be skipped only because it is already in contacts")
+            # the candidate loop runs for every frame that is not decided yet: its guards inside the outer loop
+            pm = parent_map(f.node)
+            atoms = guard_chain(pm, inner[0], outer[0])
+            want = "%sin%s" % (fr, cname)
+            ok = all((u(t).replace(" ", "") == want and pol is False) or (u(t).replace(" ", "") == "%snotin%s" % (fr, cname) and pol is True) for t, pol in atoms)
+            rep.check(ok, rule, f.key + "|skips only frames already decided", f.where,
+                      "the candidates of a frame are tested only under %s; a frame may be skipped only because it is already in contacts" % [("" if pol else "not ") + u(t) for t, pol in atoms])
             rets = [st for st in f.node.body if isinstance(st, ast.Return)]
             rep.check(len(rets) == 1 and isinstance(rets[0].value, ast.Name), rule, f.key + "|returns contacts", f.where, "detect must return the contacts dict")
         else:
